@@ -226,7 +226,8 @@ int sqfs_block_processor_sync(sqfs_block_processor_t *proc)
 			return ret;
 	}
 
-	return 0;
+	/* a failed block is handed back like any other one */
+	return proc->pool->get_status(proc->pool);
 }
 
 int sqfs_block_processor_finish(sqfs_block_processor_t *proc)
